@@ -461,3 +461,6 @@ def check(ctx):
     r7_expanded_once(ctx)
     r8_finished_is_monotone(ctx)
     r9_at_most_once_accounting(ctx)
+
+
+CLAUSE += '; no map into Lifecycle is ever shrunk (a recorded lifecycle override is never un-recorded)'
